@@ -25,6 +25,7 @@ import (
 	"google.golang.org/protobuf/reflect/protoreflect"
 	"google.golang.org/protobuf/reflect/protoregistry"
 
+	namemw "github.com/smart-core-os/sc-golang/pkg/middleware/name"
 	"github.com/smart-core-os/sc-golang/verifharness/lib"
 )
 
@@ -37,7 +38,10 @@ type e2eCase struct {
 	Script  string `json:"script"` // ok | error | trailers-only | cancel | quiet (header sent, then parked until the caller has read it)
 	Msgs    int    `json:"msgs"`
 	MsgSeed int64  `json:"msg_seed"`
-	confirm bool   // second run of a timing verdict (self-confirmation)
+	// Default, when set: the caller talks to a grpc.Server that has the default-name interceptors of
+	// pkg/middleware/name installed with this default name, in front of the same routers
+	Default *string `json:"default,omitempty"`
+	confirm bool    // second run of a timing verdict (self-confirmation)
 }
 
 type e2ePlan struct {
@@ -59,7 +63,48 @@ type e2eWorld struct {
 	routers   map[string]routerLike
 	servers   []*grpc.Server
 	childConn map[int]*grpc.ClientConn
-	heldBack  int // confirmed header-held-back verdicts (each costs two watchdog waits)
+	heldBack  int                         // confirmed header-held-back verdicts (each costs two watchdog waits)
+	fronts    map[string]*grpc.ClientConn // per default name: connection to a server with the name interceptors
+	lastWire  string                      // last case: the request as sent, field by field
+	lastSeen  string                      // last case: req=<request the child got> calls=<client:method> st=<status token>
+}
+
+// front returns a connection to a real grpc.Server that serves every router behind the default-name
+// interceptors for the given default name.
+func (w *e2eWorld) front(def string) (*grpc.ClientConn, error) {
+	if cc, ok := w.fronts[def]; ok {
+		return cc, nil
+	}
+	srv := grpc.NewServer(
+		grpc.UnaryInterceptor(namemw.IfAbsentUnaryInterceptor(def)),
+		grpc.StreamInterceptor(namemw.IfAbsentStreamInterceptor(def)))
+	for _, e := range tables {
+		w.routers[e.id()].Register(srv)
+	}
+	cc, err := bufServe(srv)
+	if err != nil {
+		return nil, err
+	}
+	w.servers = append(w.servers, srv)
+	if w.fronts == nil {
+		w.fronts = map[string]*grpc.ClientConn{}
+	}
+	w.fronts[def] = cc
+	return cc, nil
+}
+
+// e2eStatusTok: nil `-`, the router's NotFound 5, the scripted child error 9.
+func e2eStatusTok(err error) string {
+	switch st, _ := status.FromError(err); {
+	case err == nil:
+		return "-"
+	case st.Code() == codes.NotFound:
+		return "5"
+	case st.Code() == codes.FailedPrecondition && st.Message() == "child says no":
+		return "9"
+	default:
+		return "?" + st.Code().String() + ":" + strings.ReplaceAll(st.Message(), " ", "_")
+	}
 }
 
 func methodByFullName(full string) protoreflect.MethodDescriptor {
@@ -173,6 +218,9 @@ func newE2EWorld() (*e2eWorld, error) {
 
 func (w *e2eWorld) close() {
 	w.callerCC.Close()
+	for _, c := range w.fronts {
+		c.Close()
+	}
 	for _, c := range w.childConn {
 		c.Close()
 	}
@@ -189,6 +237,19 @@ func mdHas(md metadata.MD, key, val string) bool {
 // runE2E executes one case and evaluates the property on it.
 func (w *e2eWorld) runE2E(mon *lib.Monitor, e entry, c e2eCase) error {
 	sig := func(class string) string { return "C12/" + e.id() + "/" + c.Method + "/grpc/" + class }
+	callerCC := w.callerCC
+	served := c.Name // the name the request is served under
+	kind := "unary"
+	if c.Default != nil {
+		sig = func(class string) string { return "C12/" + e.id() + "+default-name/" + kind + "/grpc/" + class }
+		var err error
+		if callerCC, err = w.front(*c.Default); err != nil {
+			return err
+		}
+		if served == "" {
+			served = *c.Default
+		}
+	}
 	viol := func(class, what, exp, obs string) { mon.Violate(sig(class), what, c, exp, obs) }
 	reg := &captureRegistrar{}
 	w.routers[e.id()].Register(reg)
@@ -201,12 +262,18 @@ func (w *e2eWorld) runE2E(mon *lib.Monitor, e entry, c e2eCase) error {
 		return fmt.Errorf("no method %s", c.Method)
 	}
 	full := "/" + string(sd.FullName()) + "/" + c.Method
+	if md.IsStreamingServer() {
+		kind = "stream"
+	}
 	rng := lib.NewRand(c.MsgSeed)
 	req, err := randomMessage(rng, md.Input().FullName())
 	if err != nil {
 		return err
 	}
 	setName(req, c.Name)
+	want := proto.Clone(req) // what the child must be given: nothing but an empty name filled in
+	setName(want, served)
+	w.lastWire, w.lastSeen = msgTokNamed(req), ""
 	p := &e2ePlan{method: md, script: c.Script, header: metadata.Pairs("h", "9", "x-bin", "v"), trailer: metadata.Pairs("t", "4"), gate: make(chan struct{})}
 	n := 1
 	if md.IsStreamingServer() {
@@ -228,7 +295,7 @@ func (w *e2eWorld) runE2E(mon *lib.Monitor, e entry, c e2eCase) error {
 	w.mu.Lock()
 	w.plan = p
 	w.mu.Unlock()
-	target := map[string]int{"x": 1, "y": 2}[c.Name]
+	target := map[string]int{"x": 1, "y": 2}[served]
 
 	ctx, cancel := context.WithTimeout(context.Background(), 10*time.Second)
 	defer cancel()
@@ -237,14 +304,14 @@ func (w *e2eWorld) runE2E(mon *lib.Monitor, e entry, c e2eCase) error {
 	var rerr error
 	if !md.IsStreamingServer() {
 		reply, _ := newMessage(md.Output().FullName())
-		rerr = w.callerCC.Invoke(ctx, full, req, reply, grpc.Header(&gotHeader), grpc.Trailer(&gotTrailer))
+		rerr = callerCC.Invoke(ctx, full, req, reply, grpc.Header(&gotHeader), grpc.Trailer(&gotTrailer))
 		if rerr == nil {
 			got = append(got, reply)
 		}
 		// Observation only (outside the property, which speaks of the *stream* header and trailer): is
 		// metadata the child sets on a unary call relayed to the caller? The generated unary forwarder
 		// calls child.Method(ctx, request) without grpc.Header/grpc.Trailer call options.
-		if c.Script == "ok" && target != 0 {
+		if c.Script == "ok" && target != 0 && c.Default == nil {
 			mon.Count("unary child header relayed=" + fmt.Sprint(mdHas(gotHeader, "h", "9")))
 			mon.Count("unary child trailer relayed=" + fmt.Sprint(mdHas(gotTrailer, "t", "4")))
 			if e.Wrap != nil {
@@ -273,7 +340,7 @@ func (w *e2eWorld) runE2E(mon *lib.Monitor, e entry, c e2eCase) error {
 			}
 		}
 	} else {
-		st, err := w.callerCC.NewStream(ctx, &grpc.StreamDesc{ServerStreams: true}, full)
+		st, err := callerCC.NewStream(ctx, &grpc.StreamDesc{ServerStreams: true}, full)
 		if err != nil {
 			return err
 		}
@@ -325,6 +392,11 @@ func (w *e2eWorld) runE2E(mon *lib.Monitor, e entry, c e2eCase) error {
 	calls := append([]call(nil), p.calls...)
 	childCtx := p.childCtx
 	w.mu.Unlock()
+	var cs []string
+	for _, k := range calls {
+		cs = append(cs, fmt.Sprintf("%d:%s:5", k.Client, methodIndex(sd, k.Method)))
+	}
+	w.lastSeen = fmt.Sprintf("req=%s calls=%s st=%s", reqSeen(calls), commaList(cs), e2eStatusTok(rerr))
 
 	if target == 0 {
 		if len(calls) != 0 {
@@ -346,8 +418,12 @@ func (w *e2eWorld) runE2E(mon *lib.Monitor, e entry, c e2eCase) error {
 	if k.Method != full {
 		viol("wrong-method", "forwarded to a different method", full, k.Method)
 	}
-	if !proto.Equal(k.Req, req) {
-		viol("request-altered", "the request must pass through unaltered", fmt.Sprint(req), fmt.Sprint(k.Req))
+	if !proto.Equal(k.Req, want) {
+		what := "the request must pass through unaltered"
+		if c.Default != nil {
+			what = "the default-name interceptor fills in only an empty name; the request passes through otherwise unaltered"
+		}
+		viol("request-altered", what, fmt.Sprint(want), fmt.Sprint(k.Req))
 	}
 	if c.Script == "cancel" {
 		// the caller left: the child's call context must be cancelled (within a bounded wait)
@@ -418,7 +494,7 @@ func runE2ECases(f lib.Flags, res *lib.Result) {
 						mon.Count("quiet: skipped after 3 confirmed held-back headers")
 						continue
 					}
-					c := e2eCase{"e2e", e.Pkg, e.Router, string(md.Name()), s.name, s.script, s.msgs + r, rng.Int63() >> 12, false}
+					c := e2eCase{"e2e", e.Pkg, e.Router, string(md.Name()), s.name, s.script, s.msgs + r, rng.Int63() >> 12, nil, false}
 					var rerr error
 					panicked, msg := lib.Catch(func() { rerr = w.runE2E(mon, e, c) })
 					if panicked {
